@@ -180,7 +180,17 @@ pub fn gen_history(rng: &mut Rng, cfg: &Cfg, o: &GenOpts) -> Vec<OpK> {
         let id = rng.below(o.id_universe);
         let op = if r < 45 {
             write_no += 1;
-            OpK::Insert { id, vec: bits(&gen_vector(rng, cfg.dim, write_no)), meta: gen_meta(rng, write_no) }
+            // Euclidean collections may hold the origin (and signed zeros): legal documents that look like empty slots
+            let vec = if cfg.metric == 1 && rng.chance(1, 14) {
+                match rng.below(3) {
+                    0 => vec![0.0f32; cfg.dim],
+                    1 => vec![-0.0f32; cfg.dim],
+                    _ => (0..cfg.dim).map(|i| if i % 2 == 0 { 0.0f32 } else { -0.0 }).collect(),
+                }
+            } else {
+                gen_vector(rng, cfg.dim, write_no)
+            };
+            OpK::Insert { id, vec: bits(&vec), meta: gen_meta(rng, write_no) }
         } else if r < 58 {
             OpK::Delete { id }
         } else if r < 66 {
